@@ -15,6 +15,7 @@ EXPLANATION = (
     "excluded); (R3) for each operator variant the literal emitted in text mode is one the parser leaf producing that variant accepts, and no leaf of a "
     "different variant accepts it; (R4) format() forces text mode; (R5) no emitter replaces a non-blank literal (terminator, separator, keyword) depending on "
     "the rendered text of a child node. The round trip itself (whitespace, layout, nesting) is a property of string values and is NOT decided."
+    " (R6) no text-mode emitter filters/skips/takes elements of the lists it is given; (R7) struct emitters write the node's fields in the order the node's parser reads them; (R8) the literal text an emitter writes before/between/after the fields is text the parser's delimiter parsers accept at that place, whitespace aside (parser skeletons and token languages vs. a symbolic evaluation of the emitter's string building; existential over the productions of one node shape; delimiters supplied by calling or position-aware child emitters are followed); (R9) list fields are walked in element order on the text path."
 )
 OP_ENUMS = ["AddSubOp", "MulDivOp", "PowerOp", "VecOp", "ComparisonOp", "LogicOp", "TableOp", "SetOp", "OpAssignOp", "RangeOp"]
 
